@@ -2,6 +2,7 @@
 //! (C12: MessageView on arbitrary bytes).  64-bit `usize` is assumed.
 //!
 //! `tlvview`:  `view <hex> <lookups>`
+//!             `viewit <iter|tags> <hex> <script>`  iterator-protocol script (`iterscript.rs`) on `iter()` / `tags().iter()`
 //! `tlv`:      `msg <new|sorted|slice> <cow|str|ref|h> <tag:kind:payload,...|->`
 //!             (kinds: b/o = borrowed/owned bytes, m = message in slot <payload>, v = MessageView of that slot's encoding,
 //!              f = value whose rough_tlv_len reports <payload>, never encoded)
@@ -242,9 +243,66 @@ fn parse_u32_list(s: &str) -> Option<Vec<u32>> {
 pub struct TlvViewFamily;
 struct TlvViewExec;
 
+/// `viewit <iter|tags> <hex> <script>`: `MessageView::new`, then an iterator-protocol script
+/// (`iterscript.rs`) on `iter()` (forward-only) or on `tags().iter()` (a slice iterator:
+/// double-ended, exact size), against a `Vec` of the pairs / tags obtained through `get(i)`.
+fn view_iter_script(src: &str, d: &[u8], steps: &[crate::iterscript::Step], script: &str) -> StepOut {
+    use crate::iterscript as its;
+    let mut so = StepOut::default();
+    let msg = match MessageView::new(Cow::Borrowed(d)) {
+        Err(e) => {
+            if ref_accepts(d) {
+                so.violations.push(format!("C12 rejected a well-formed message ({})", dec_err_str(&e)));
+            }
+            so.obs.push(format!("new err {}", dec_err_str(&e)));
+            return so;
+        }
+        Ok(m) => m,
+    };
+    if !ref_accepts(d) {
+        so.violations.push("C12 accepted a malformed message".into());
+    }
+    let n = msg.len();
+    let mut items: Vec<String> = Vec::with_capacity(n);
+    for i in 0..n {
+        match msg.get(i) {
+            Some((t, v)) => items.push(if src == "iter" { pair_str(t, v) } else { t.value().to_string() }),
+            None => {
+                so.violations.push(format!("C12 get({}) is None with n={}", i, n));
+                break;
+            }
+        }
+    }
+    let (obs, diff) = if src == "iter" {
+        let real = its::forward(msg.iter(), |p: (Tag, &[u8])| pair_str(p.0, p.1));
+        its::run_both("C12", "MessageView::iter() against get(i)", steps, script, real, items)
+    } else {
+        let real = its::double_ended(msg.tags().iter(), |t: &Tag| t.value().to_string());
+        its::run_both("C12", "MessageView::tags().iter() against get(i)", steps, script, real, items)
+    };
+    so.obs.push(obs);
+    so.violations.extend(diff);
+    so.tags.push(format!("viewit_{}_n{}", src, n.min(6)));
+    so
+}
+
 impl Exec for TlvViewExec {
+    fn flush_before(&self, w: &[&str]) -> bool {
+        matches!(w, ["viewit", ..])
+    }
     fn step(&mut self, w: &[&str]) -> StepOut {
         match w {
+            ["viewit", src @ ("iter" | "tags"), hex, script] => {
+                let (Some(d), Some(steps)) = (from_hex(hex), crate::iterscript::parse(script)) else { return StepOut::bad() };
+                match catch_unwind(AssertUnwindSafe(|| view_iter_script(src, &d, &steps, script))) {
+                    Ok(so) => so,
+                    Err(_) => {
+                        let mut so = StepOut::obs("panic");
+                        so.violations.push(format!("C12 MessageView or its iterator panicked in script `{}`", script));
+                        so
+                    }
+                }
+            }
             ["view", hex, lk] => {
                 let (Some(d), Some(lookups)) = (from_hex(hex), parse_u32_list(lk)) else { return StepOut::bad() };
                 let mut so = StepOut::default();
@@ -401,10 +459,50 @@ impl Family for TlvViewFamily {
             let lk = |x: &[u8]| format!("view {} {},{},0,4294967295", to_hex(x), rd32(x, n), rd32(x, 2 * n - 1));
             cases.push(vec![lk(&d), lk(&over), lk(&cut)]);
         }
+        // (d) iterator protocol (track gen3): every script of <= 2 (thorough: 3) non-consuming steps over a
+        // small alphabet, alone and followed by each consuming step, on iter() and tags().iter() of messages
+        // with 5, 2, 1 and 0 pairs
+        let mut rng = Rng::new(0xC12_17E4);
+        for (k, n) in [5usize, 2, 1, 0].into_iter().enumerate() {
+            let d = gen_valid(&mut rng, n);
+            let depth = if k == 0 { if thorough { 3 } else { 2 } } else { if thorough { 2 } else { 1 } };
+            let mut ops: Vec<String> = Vec::new();
+            for sc in crate::iterscript::enum_scripts(depth, false, n + 2) {
+                ops.push(format!("viewit iter {} {}", to_hex(&d), sc));
+            }
+            for sc in crate::iterscript::enum_scripts(depth, true, n + 2) {
+                ops.push(format!("viewit tags {} {}", to_hex(&d), sc));
+            }
+            cases.extend(ops.chunks(256).map(|c| c.to_vec()));
+        }
         cases
     }
 
     fn gen_case(&self, rng: &mut Rng, _idx: u64, _thorough: bool) -> Vec<String> {
+        if rng.chance(1, 8) {
+            // iterator protocol on a well-formed message (now and then on a mutated one: the op then only
+            // answers the `new` line)
+            let n = match rng.below(6) {
+                0 => rng.range(0, 2) as usize,
+                1 => rng.range(30, 70) as usize,
+                _ => rng.range(2, 12) as usize,
+            };
+            let mut d = gen_valid(rng, n);
+            if rng.chance(1, 12) && !d.is_empty() {
+                let i = rng.below(d.len() as u64) as usize;
+                d[i] = d[i].wrapping_add(1);
+            }
+            let mut ops = Vec::new();
+            for _ in 0..rng.range(2, 8) {
+                if rng.chance(3, 4) {
+                    let de = rng.chance(1, 30);
+                    ops.push(format!("viewit iter {} {}", to_hex(&d), crate::iterscript::gen_script(rng, n, de)));
+                } else {
+                    ops.push(format!("viewit tags {} {}", to_hex(&d), crate::iterscript::gen_script(rng, n, true)));
+                }
+            }
+            return ops;
+        }
         let mut ops = Vec::new();
         let n = match rng.below(8) {
             0 => 0,
